@@ -94,6 +94,9 @@ AXIOM_FAMILIES = {
 def _unary(fn_scalar, elem=None):
     def f(ex, st, args, kw, node):
         x = args[0]
+        if isinstance(x, MaskedV):
+            # element-wise function of a selection = the selection (same mask) of the element-wise function
+            return MaskedV(ex.map1(st, x.arr, fn_scalar, elem), x.mask)
         if isinstance(x, ARef):
             return ex.map1(st, x, fn_scalar, elem)
         return fn_scalar(lit(x))
@@ -419,7 +422,39 @@ def _np_arange(ex, st, args, kw, node):
 
 
 def compress_rows(ex, st, v, mask, node):
-    raise Undecided("boolean-mask row selection is specified through contracts, not executed")
+    """a[mask] for a 2-D array and a 1-D boolean mask over its rows: the selected rows in order, kept symbolic (A-NP-MASK)"""
+    dv, dm = ex.arr(st, v), ex.arr(st, mask)
+    if not z3.eq(z3.simplify(dv.shape[0]), z3.simplify(dm.shape[0])):
+        ex.safe(st, "mask-length", dv.shape[0] == dm.shape[0], node)
+    return MaskedV(v, mask)
+
+
+def mask_count(d):
+    """number of True entries of a boolean array: the term np.sum(mask) evaluates to"""
+    return d.count_term if d.count_term is not None else COUNT(d.data, d.shape[0])
+
+
+def masked_flatten(ex, st, mv, node):
+    """a[mask].flatten(): the selected rows one after the other (C order).  The rows are enumerated by the increasing sequence of the True
+    indices (the characterisation np.where gets, A-NP-WHERE); their number is the term np.sum(mask) evaluates to (A-NP-SUM)."""
+    dv, dm = ex.arr(st, mv.arr), ex.arr(st, mv.mask)
+    if ex.spec_mode:
+        raise Undecided("flatten of a selection inside a specification")
+    if dv.rank != 2:
+        raise Undecided("flatten of a 1-D selection")
+    n, m = dv.shape
+    cnt = mask_count(dm)
+    idx = ex.fresh("selected_rows", z3.ArraySort(I, I))
+    flat = ex.fresh("flattened", z3.ArraySort(I, R))
+    t, u, k, c = z3.Ints("t!fl u!fl k!fl c!fl")
+    st.pc += [cnt >= 0,
+              z3.ForAll([t], z3.Implies(z3.And(t >= 0, t < cnt), z3.And(idx[t] >= 0, idx[t] < n, z3.Select(dm.data, idx[t])))),
+              z3.ForAll([t, u], z3.Implies(z3.And(t >= 0, t < u, u < cnt), idx[t] < idx[u])),
+              z3.ForAll([k], z3.Implies(z3.And(k >= 0, k < n, z3.Select(dm.data, k)), z3.Exists([t], z3.And(t >= 0, t < cnt, idx[t] == k)))),
+              z3.ForAll([t, c], z3.Implies(z3.And(t >= 0, t < cnt, c >= 0, c < m), flat[t * m + c] == ex.sel2(dv, idx[t], c))),
+              # the instance for the first selected row, stated separately (t*m + c is not a usable trigger)
+              z3.ForAll([c], z3.Implies(z3.And(cnt >= 1, c >= 0, c < m), flat[c] == ex.sel2(dv, idx[0], c)))]
+    return ex.alloc_arr(st, (cnt * m,), flat, dv.elem, "fresh", tag="flatten")
 
 
 # ---- python builtins -------------------------------------------------------------------------------
